@@ -29,6 +29,8 @@ pub const FAMILIES: &[(&str, &[&str])] = &[
                "<link charset=utf-8>", "<base charset=x>", "<bgsound http-equiv=content-type content=\"charset=y\">", "<basefont charset=z>"]),
     ("forms", &["<input>", "<button>", "<select>", "<textarea>", "</textarea>", "<img>", "<fieldset>", "<object>", "<output>", "<label>", "<form>", "</form>",
                 "<div>", "</div>", "<table>", "<td>", "x", "<keygen>", "</select>", "</button>", "<template>", "</template>", "<input form=f>", "<b>", "</b>", "<p>"]),
+    ("skeleton", &["<!DOCTYPE html>", "<!--c-->", "<html>", "<head>", "</head>", "<body>", "</body>", "</html>", "<frameset>", "</frameset>", "<noframes>", "x",
+                   " ", "<p>", "<!DOCTYPE x>", "<title>", "<template>", "<table>", "</noframes>", "<frame>", "\n", "<html a=b>"]),
     ("aaa", &["<a>", "<b>", "<p>", "<div>", "</a>", "</b>", "</p>", "x", "<table>", "<td>", "<nobr>", "<button>", "</div>", "<i>", "</i>", "<li>",
               "<svg>", "<mi>", "<applet>", "<template>", "</table>", "<search>", "<span>", "</span>", "<math>", "<desc>", "<annotation-xml>", "</nobr>"]),
     ("ark", &["<b>", "<p>", "</p>", "x", "<b id=q>", "</b>", "<div>", "<b id=q class=r>", "<b class=r id=q>", "<i>", "<td>", "<table>"]),
@@ -55,7 +57,7 @@ pub fn emit_case(c: &Value, id: u64, out: &mut Out) {
     if std::env::var("VH_NOTE").is_ok() {
         crate::tok::note_current(c);
     }
-    let po = if c.get("toks").is_some() { run_tokens(c) } else { run_parse(c) };
+    let po = if c.get("toks").is_some() { run_tokens(c) } else if c.get("bytes").is_some() { run_parse_bytes(c) } else { run_parse(c) };
     let mut cfg = c.clone();
     if c.get("toks").is_some() {
         cfg.as_object_mut().unwrap().remove("toks");
@@ -74,8 +76,13 @@ pub fn emit_case(c: &Value, id: u64, out: &mut Out) {
                 }
             }
         }
-        out.line(&json!({"ev":"case","case":id,"cfg":cfg,"chunks":c["chunks"],"toks":toks,"dom":po.tree_flags,"quirks":po.quirks,
-                         "istate":po.istate,"panic": match &po.panic { Some(m) => json!([cps(m)]), None => json!([]) }}));
+        let mut line = json!({"ev":"case","case":id,"cfg":cfg,"chunks":c["chunks"],"toks":toks,"dom":po.tree_flags,"quirks":po.quirks,
+                              "istate":po.istate,"panic": match &po.panic { Some(m) => json!([cps(m)]), None => json!([]) }});
+        if c.get("bytes").is_some() {
+            line["bytes"] = c["bytes"].clone();
+            line["cfg"].as_object_mut().unwrap().remove("bytes");
+        }
+        out.line(&line);
         return;
     }
     out.line(&json!({"ev":"reset","case":id,"cfg":cfg,"chunks":c["chunks"]}));
@@ -115,6 +122,7 @@ pub fn main(args: &Args) {
     let how = args.get("chunk").unwrap_or("none").to_string();
     let gc = args.has("gc");
     let loud = args.has("loud");
+    let optsets = args.has("optsets");
     let mut id = 0u64;
     let mut cr = Rng::new(args.num("seed", 1) ^ 0x77);
     if args.has("c02") {
@@ -128,8 +136,15 @@ pub fn main(args: &Args) {
                 if c["cfg"]["tokdriven"] == true {
                     case["toks"] = Value::Array(c["toks"].as_array().unwrap().iter().map(|x| x["tok"].clone()).collect());
                 }
+                if c.get("bytes").is_some() {
+                    case["bytes"] = c["bytes"].clone();
+                }
                 id += 1;
                 emit_case(&case, id, &mut out);
+            } else if c.get("text").is_some() && c.get("mode").is_none() {
+                // an input text exported by MC_HtmlParser
+                id += 1;
+                emit_case(&base_case(&from_cps(&c["text"])), id, &mut out);
             } else if c.get("toks").is_some() {
                 // a token sequence exported by MC_TreeBuilder: fed to the tree builder directly
                 id += 1;
@@ -162,6 +177,17 @@ pub fn main(args: &Args) {
             c2["chunks"] = Value::Array(ch.iter().map(|x| cps(x)).collect());
             id += 1;
             emit_case(&c2, id, out);
+            if optsets {
+                // C08: the same input and feed schedule under the diagnostic / housekeeping options
+                for (k1, v1, k2, v2) in [("exact", true, "tb_exact", true), ("exact", true, "tb_exact", false), ("bom", false, "tb_exact", true),
+                                         ("drop_doctype", true, "exact", false)] {
+                    let mut c3 = c2.clone();
+                    c3[k1] = json!(v1);
+                    c3[k2] = json!(v2);
+                    id += 1;
+                    emit_case(&c3, id, out);
+                }
+            }
         }
     };
     match args.get("mode").unwrap_or("random") {
@@ -185,6 +211,53 @@ pub fn main(args: &Args) {
                         }
                         run(base_case(&s), &mut out, &mut cr);
                     }
+                }
+            }
+        },
+        "bytes" => {
+            // C10 (tree clause): markup soup as UTF-8 bytes with ill-formed sequences spliced in, cut into chunks at arbitrary
+            // byte positions (inside multi-byte characters and inside ill-formed sequences too), fed through from_utf8()
+            let mut r = Rng::new(args.num("seed", 1));
+            let bad: &[&[u8]] = &[&[0x80], &[0xc0, 0xaf], &[0xe0, 0x80, 0xaf], &[0xf0, 0x9f, 0x98], &[0xed, 0xa0, 0x80], &[0xf4, 0x90, 0x80, 0x80],
+                                  &[0xff], &[0xe2, 0x82], &[0xc3], &[0xf0, 0x9f], &[0xfe], &[0xf8, 0x88, 0x80, 0x80, 0x80], &[0xef, 0xbb, 0xbf], &[0xef, 0xbb]];
+            for _ in 0..args.num("n", 100) {
+                n += 1;
+                if n % shards != shard {
+                    let _ = rand_soup(&mut r, 8);
+                    continue;
+                }
+                let soup = rand_soup(&mut r, args.num("maxpieces", 10) as usize) + *r.pick(&["", "\u{e9}", "\u{20ac}x", "\u{1f600}", "\u{feff}"]);
+                let mut bytes: Vec<u8> = Vec::new();
+                if r.chance(1, 6) {
+                    bytes.extend_from_slice(*r.pick(bad));
+                }
+                for b in soup.as_bytes() {
+                    bytes.push(*b);
+                    if r.chance(1, 12) {
+                        bytes.extend_from_slice(*r.pick(bad));
+                    }
+                }
+                // chunkings: one piece, every single byte, and a few random cuts
+                let mut variants: Vec<Vec<Vec<u8>>> = vec![vec![bytes.clone()], bytes.iter().map(|b| vec![*b]).collect()];
+                for _ in 0..3 {
+                    let mut v = Vec::new();
+                    let mut cur = Vec::new();
+                    for b in &bytes {
+                        cur.push(*b);
+                        if r.chance(1, 5) {
+                            v.push(std::mem::take(&mut cur));
+                        }
+                    }
+                    v.push(cur);
+                    variants.push(v);
+                }
+                for v in variants {
+                    let mut c = base_case("");
+                    c["chunks"] = json!([]);
+                    c["bytes"] = json!(v);
+                    c["scripting"] = json!(true);
+                    id += 1;
+                    emit_case(&c, id, &mut out);
                 }
             }
         },
